@@ -201,6 +201,10 @@ func parseProgressiveMp4(w io.Writer, f *mp4.File, maxNrSamples int, codec strin
 		}
 		// Next find sample bytes as slice in mdat
 		offsetInMdatData := uint64(offset) - mdatPayloadStart
+		mdatDataLength := uint64(len(mdat.Data))
+		if uint64(offset) < mdatPayloadStart || offsetInMdatData > mdatDataLength || uint64(size) > mdatDataLength-offsetInMdatData {
+			return fmt.Errorf("sample %d (offset %d, size %d) is outside the mdat payload", sampleNr, offset, size)
+		}
 		sample := mdat.Data[offsetInMdatData : offsetInMdatData+uint64(size)]
 		nalus, err := avc.GetNalusFromSample(sample)
 		if err != nil {
